@@ -119,6 +119,11 @@ func runFaultScenario(t *testing.T, rec *recorder, f fault, seed uint64, scratch
 	dial := fmt.Sprintf("127.0.0.1:%d", freePort())
 	opts := []Option{WithNumEventLoop(1), WithReusePort(true), WithLockOSThread(true), WithReadBufferCap(cfg.readCap), WithWriteBufferCap(cfg.writeCap),
 		WithLogger(nullLogger{}), WithEdgeTriggeredIO(f.et)}
+	if f.syscall == "epoll_ctl" {
+		// a small send buffer: big answers do leave a backlog (and the write interest gets registered)
+		cfg.sndbuf = 4096
+		opts = append(opts, WithSocketSendBuffer(cfg.sndbuf))
+	}
 	runErr := make(chan error, 1)
 	go func() {
 		err := Run(h, "tcp://"+dial, opts...)
@@ -164,6 +169,13 @@ func runFaultScenario(t *testing.T, rec *recorder, f fault, seed uint64, scratch
 		if sp.total > 70000 {
 			sp.total = 5000
 			sp.segs = segPlan(sp.total, rng, cfg.readCap)
+		}
+		if i == 1 && f.syscall == "epoll_ctl" {
+			// a peer that reads late while the handler answers with more than the socket buffers take: the calls that
+			// add the write interest (after EAGAIN, after a partial write) are among the first epoll_ctl calls
+			sp.total, sp.segs, sp.lockstep = 10, []int{10}, false
+			sp.shut, sp.peerRead, sp.consume, sp.reply = "fin", "stall", "all", "big"
+			sp.closeAt, sp.openOut, sp.budget = -1, -1, 1<<20
 		}
 		wg.Add(1)
 		go func() { defer wg.Done(); runPeer(rec, h, sp, dial, scratch, rep) }()
@@ -295,12 +307,16 @@ func TestVerifFaults(t *testing.T) {
 	ctlHits := map[string]int{}
 	for _, et := range []bool{false, true} {
 		want := map[string]bool{"EPOLL_CTL_ADD": true, "EPOLL_CTL_DEL": true}
-		modLeft := 0
+		armLeft := 0
 		if !et {
-			want["EPOLL_CTL_MOD"] = true
-			modLeft = 3 // (several call sites change the interest set: keep going until three of those calls were failed)
+			// several call sites change the interest set: keep going until one call that drops the write interest
+			// and two that add it (conn.write after EAGAIN / after a partial write, writev, Flush, the OnOpen reply)
+			// have been failed
+			want["EPOLL_CTL_MOD, drop"] = true
+			want["EPOLL_CTL_MOD, arm"] = true
+			armLeft = 2
 		}
-		maxK := 12
+		maxK := 16
 		if vsup.Thorough() {
 			maxK = 16
 		}
@@ -311,13 +327,21 @@ func TestVerifFaults(t *testing.T) {
 			}
 			for _, line := range hits {
 				for op := range want {
-					if strings.Contains(line, op) {
-						if op == "EPOLL_CTL_MOD" {
-							if modLeft--; modLeft > 0 {
-								continue
+					switch op {
+					case "EPOLL_CTL_MOD, arm":
+						if strings.Contains(line, "EPOLL_CTL_MOD") && strings.Contains(line, "EPOLLOUT") {
+							if armLeft--; armLeft <= 0 {
+								delete(want, op)
 							}
 						}
-						delete(want, op)
+					case "EPOLL_CTL_MOD, drop":
+						if strings.Contains(line, "EPOLL_CTL_MOD") && !strings.Contains(line, "EPOLLOUT") {
+							delete(want, op)
+						}
+					default:
+						if strings.Contains(line, op) {
+							delete(want, op)
+						}
 					}
 				}
 				for _, op := range []string{"EPOLL_CTL_ADD", "EPOLL_CTL_MOD", "EPOLL_CTL_DEL"} {
